@@ -11,12 +11,10 @@ nesting depth and every position of the injected fault: `exec_keeps_extension`, 
 import NV.C05.Model
 import NV.C05.Lemmas
 import NV.C05.Exec
+import NV.C05.Guards
 import NV.C05.Spec
 
 namespace NV.C05
-
-/-- the context `save_context` stores in state `s` -/
-def ctxOf (s : M) : Ctx := { saveSp := s.vs.length, saveCsp := s.cs.length, saveCg := s.cg }
 
 /-- `m` extends `s`: both stacks of `s` are intact below what was pushed since; `first` is the first frame pushed
     after the save, if any -/
@@ -33,7 +31,7 @@ theorem restore_is_inverse (s m : M) (dv : List Slot) (dc : List Frame) (h : Ext
     ∃ m', restoreContext (ctxOf s) m = .ok m' ∧
       m'.vs = s.vs ∧ m'.cs = s.cs ∧ m'.cg = s.cg ∧ m'.ctxs = m.ctxs ∧
       ((dc = [] → m.r = s.r) → (∀ f, dc.getLast? = some f → f.saved = s.r) → m'.r = s.r) := by
-  obtain ⟨m', h1, h2, h3, h4, h5, _, h7, h8, _⟩ := restoreContext_ext m dv s.vs dc s.cs s.cg h.vs h.cs
+  obtain ⟨m', h1, h2, h3, h4, h5, _, h7, h8, _⟩ := restoreContext_ext m dv s.vs dc s.cs s.cg h.vs h.cs s.loadDepth s.restrictDestruct
   refine ⟨m', h1, h2, h3, h4, h5, ?_⟩
   intro hnil hfirst
   cases hd : dc.getLast? with
@@ -55,7 +53,7 @@ example : ∃ m', restoreContext (ctxOf exS) exM = .ok m' ∧ m'.vs = [Slot.val]
     popped segment, each once, top first, and no other. -/
 theorem handlers_run_exactly_once (s m : M) (dv : List Slot) (dc : List Frame) (h : Extends s m dv dc) :
     ∃ m', restoreContext (ctxOf s) m = .ok m' ∧ m'.ran = (handlerIds dv).reverse ++ m.ran := by
-  obtain ⟨m', h1, _, _, _, _, h6, _⟩ := restoreContext_ext m dv s.vs dc s.cs s.cg h.vs h.cs
+  obtain ⟨m', h1, _, _, _, _, h6, _⟩ := restoreContext_ext m dv s.vs dc s.cs s.cg h.vs h.cs s.loadDepth s.restrictDestruct
   exact ⟨m', h1, h6⟩
 
 example : ∃ m', restoreContext (ctxOf {}) { vs := [.handler 2, .val, .handler 7], ran := [1] } = .ok m' ∧ m'.ran = [7, 2, 1] :=
@@ -74,7 +72,7 @@ theorem catch_yields_message (s m : M) (dv : List Slot) (dc : List Frame) (link 
     (h : Extends s m dv dc) (hlim : m.errState &&& limitBits = 0) :
     ∃ m', catchFinish (ctxOf s) link (.err m) = .ok m' ∧ m'.lastCatch = m.catchValue ∧ m'.ctxs = link ∧
       m'.vs = s.vs ∧ m'.cs = s.cs ∧ m'.cg = s.cg := by
-  obtain ⟨m6, h1, h2, h3, h4, _, _, _, _, _, _, h11, h12, _⟩ := restoreContext_ext m dv s.vs dc s.cs s.cg h.vs h.cs
+  obtain ⟨m6, h1, h2, h3, h4, _, _, _, _, _, _, h11, h12, _⟩ := restoreContext_ext m dv s.vs dc s.cs s.cg h.vs h.cs s.loadDepth s.restrictDestruct
   refine ⟨{ popContext link { pushVals 1 m6 with lastCatch := m6.catchValue, catchValue := .num 1 } with vs := m6.vs }, ?_, ?_, ?_, ?_, ?_, ?_⟩
   · have hlim' : m6.errState &&& limitBits = 0 := by rw [h12]; exact hlim
     have h1' : restoreContext (ctxOf s) m = .ok m6 := h1
@@ -262,7 +260,8 @@ theorem top_restores (ob : Val) (p : Prog) (k : Nat) (m0 m1 : M) (econ : Ctx)
     (hs : saveContext m0 = some (econ, m1)) :
     ∃ m', topFinish econ m0.ctxs (topBody ob p { m1 with fault := k }) = .ok m' ∧
       m'.vs = m0.vs ∧ m'.cs = m0.cs ∧ m'.ctxs = m0.ctxs ∧ m'.r = m0.r ∧
-      ((∃ me, topBody ob p { m1 with fault := k } = .err me) → m'.cg = m0.cg) := by
+      ((∃ me, topBody ob p { m1 with fault := k } = .err me) → m'.cg = m0.cg) ∧
+      m'.loadDepth = m0.loadDepth ∧ m'.restrictDestruct = m0.restrictDestruct := by
   obtain ⟨he, h1v, h1c, h1x, h1g⟩ := saveContext_spec hs
   subst he
   let mk : M := { m1 with fault := k }
@@ -276,6 +275,9 @@ theorem top_restores (ob : Val) (p : Prog) (k : Nat) (m0 m1 : M) (econ : Ctx)
     · cases hs
     · cases hs; rfl
   have hb : Good m2 (thenTick (exec p m2)) := thenTick_good (exec_good p m2)
+  obtain ⟨_, _, hg1, hg2⟩ := saveContext_guards hs
+  have hgk : GuardsKept m0 (callFinish (.other ob) 0 (thenTick (exec p m2))) :=
+    callFinish_guardsKept (thenTick_guardsKept (GuardsKept.of_eq (m1 := m2) hg1 hg2 (exec_guards p m2)))
   show ∃ m', topFinish _ m0.ctxs (callFinish (.other ob) 0 (thenTick (exec p m2))) = .ok m' ∧ _
   cases hr : thenTick (exec p m2) with
   | ok m4 =>
@@ -293,7 +295,10 @@ theorem top_restores (ob : Val) (p : Prog) (k : Nat) (m0 m1 : M) (econ : Ctx)
       (by rw [h3v]; show List.replicate 1 Slot.val ++ m4.vs = _; rw [hb.vs, hm2v]; rfl) rfl
     have h6r := popN_r 1 m3 m6 hp6
     have hne : (framesOf (.other ob) == 2) = false := rfl
-    refine ⟨popContext m0.ctxs m6, ?_, h6v, h6c.trans h3c, rfl, h6r.1.trans (h3r.trans hr1), ?_⟩
+    have hcf : callFinish (.other ob) 0 (.ok m4) = .ok m6 := by
+      simp only [callFinish, leaveCall, hp0, hp3, hne, Bool.false_eq_true, ↓reduceIte, hp6]
+    rw [hr, hcf] at hgk
+    refine ⟨popContext m0.ctxs m6, ?_, h6v, h6c.trans h3c, rfl, h6r.1.trans (h3r.trans hr1), ?_, hgk.1, hgk.2⟩
     · simp only [callFinish, leaveCall, hp0, hp3, hne, Bool.false_eq_true, ↓reduceIte, hp6, topFinish]
     · rintro ⟨me, hme⟩
       have hme' : callFinish (.other ob) 0 (thenTick (exec p m2)) = .err me := hme
@@ -304,10 +309,11 @@ theorem top_restores (ob : Val) (p : Prog) (k : Nat) (m0 m1 : M) (econ : Ctx)
     rw [hr] at hb
     obtain ⟨dv, hdv⟩ := hb.vs
     obtain ⟨dc, hdc⟩ := hb.cs
-    obtain ⟨m5, h1, h2, h3, h4, _, _, _, h8, _⟩ := restoreContext_ext m4 dv m0.vs (dc ++ [⟨.function, m1.r⟩]) m0.cs m0.cg
-      (by rw [hdv, hm2v]) (by rw [hdc, hm2c]; simp)
+    obtain ⟨m5, h1, h2, h3, h4, _, _, _, h8, h9, h10, _⟩ := restoreContext_ext m4 dv m0.vs (dc ++ [⟨.function, m1.r⟩]) m0.cs m0.cg
+      (by rw [hdv, hm2v]) (by rw [hdc, hm2c]; simp) m0.loadDepth m0.restrictDestruct
+    have h1 : restoreContext (ctxOf m0) m4 = .ok m5 := h1
     have hr5 : m5.r = m1.r := h8 ⟨.function, m1.r⟩ (by simp)
-    refine ⟨popContext m0.ctxs m5, ?_, h2, h3, rfl, hr5.trans hr1, fun _ => h4⟩
+    refine ⟨popContext m0.ctxs m5, ?_, h2, h3, rfl, hr5.trans hr1, fun _ => h4, h9, h10⟩
     simp only [callFinish, topFinish, h1]
   | crash w m4 =>
     rw [hr] at hb
@@ -340,7 +346,8 @@ theorem catch_yields_message_exec (body : Prog) (m m1 m5 : M) (econ : Ctx)
 /-- the snapshot the harness prints, as data -/
 def obsOf (m : M) : Obs :=
   { sp := m.vs.length, csp := m.cs.length, ctx := m.ctxs.length, cg := m.cg, co := m.r.co, po := m.r.prevOb,
-    prog := m.r.prog, ct := m.r.callerType, fp := m.r.fp, pc := m.r.pc, fio := m.r.fio, vio := m.r.vio }
+    prog := m.r.prog, ct := m.r.callerType, fp := m.r.fp, pc := m.r.pc, fio := m.r.fio, vio := m.r.vio,
+    ld := m.loadDepth, rd := m.restrictDestruct }
 
 def isErr : Res → Bool
   | .err _ => true
@@ -366,7 +373,7 @@ theorem model_satisfies_spec (ob : Val) (p : Prog) (k : Nat) (m0 : M) : judgeObs
   | none => simp [judgeObs]
   | some em =>
     obtain ⟨econ, m1⟩ := em
-    obtain ⟨m', h1, hv, hc, hx, hr, hcg⟩ := top_restores ob p k m0 m1 econ hs
+    obtain ⟨m', h1, hv, hc, hx, hr, hcg, hld, hrd⟩ := top_restores ob p k m0 m1 econ hs
     simp only [h1]
     have hcg' : isErr (topBody ob p { m1 with fault := k }) = true → m'.cg = m0.cg := by
       intro he
@@ -375,7 +382,7 @@ theorem model_satisfies_spec (ob : Val) (p : Prog) (k : Nat) (m0 : M) : judgeObs
       | ok _ => rw [hb] at he; cases he
       | crash _ _ => rw [hb] at he; cases he
     cases he : isErr (topBody ob p { m1 with fault := k }) with
-    | false => simp [judgeObs, obsOf, hv, hc, hx, hr]
-    | true => simp [judgeObs, obsOf, hv, hc, hx, hr, hcg' he]
+    | false => simp [judgeObs, obsOf, hv, hc, hx, hr, hld, hrd]
+    | true => simp [judgeObs, obsOf, hv, hc, hx, hr, hld, hrd, hcg' he]
 
 end NV.C05
